@@ -436,9 +436,14 @@ def model_specs(draw, profile=None):
         if g.coin(0.5) and len(characs) >= 2:
             characs.append({"name": "xf", "inc": list(characs[-1]["inc"][:1]), "den": characs[0]["name"], "db": False})
             g.labels.add("charac:denominator")
+    if len(characs) >= 2 and g.coin(0.5):
+        # sheet order is free because an explicit cascade is always emitted: a fraction may be listed before its denominator
+        characs = [characs[-1]] + characs[:-1] if characs[-1]["den"] is not None else list(reversed(characs))
+        g.labels.add("charac:sheet-order-shuffled")
     spec["characs"] = characs
     if characs:
-        spec["cascades"] = [{"name": "main", "stages": [["S " + x["name"], [x["name"]]] for x in characs if x["den"] is None]}]
+        nested = sorted([x for x in characs if x["den"] is None], key=lambda x: -len(x["inc"]))
+        spec["cascades"] = [{"name": "main", "stages": [["S " + x["name"], [x["name"]]] for x in nested]}]
 
     # ---- interactions ---------------------------------------------------------------------
     # (populations are drawn below; interactions only matter for aggregation parameters)
